@@ -280,7 +280,8 @@ triage.add('C08', 'C08-R1', key('struct.error', 'raised in nfc.tag.tt3.Type3Tag.
                                                             any("target.sensf_res[17:19]" in norm(x) for x in i.body) for i in ast.walk(f.node)))])
 
 
-from .c16 import _nlen_size_domain, NLEN_ANCHORS, NLEN_REASON, ISODEP_EMPTY_REASON, ISODEP_EMPTY_ANCHORS   # noqa: E402
+from .c16 import _nlen_size_domain, NLEN_ANCHORS, NLEN_REASON   # noqa: E402
+from .c12 import ISODEP_EMPTY_REASON, ISODEP_EMPTY_ANCHORS   # noqa: E402
 
 triage.add('C08', 'C08-R1', key('struct.error', 'raised in nfc.tag.tt4.Type4Tag.NDEF._read_ndef_data', 'unpack(lfmt, nlen)'), NLEN_REASON, NLEN_ANCHORS)
 
